@@ -92,6 +92,19 @@ def _ondata_abs(ctx):
     od = lambdas(ctx)["onData"]
     vocab = Vocab(["fits", "overflow", "sync", "disabled"])
 
+    inits = {}
+    for e in od.stmts():
+        if e.node.get("k") == "decl":
+            for dv in e.node["vars"]:
+                if dv.get("init") is not None and "const" in (dv.get("t") or ""):
+                    inits[dv["d"]] = dv["init"]
+
+    def res(x):
+        x = strip_casts(x)
+        if x is not None and x.get("k") == "var" and x.get("d") in inits:
+            return strip_casts(inits[x["d"]])
+        return x
+
     def leaf(n):
         k = n.get("k")
         if k == "member" and n["n"] == SRB + "::overflow":
@@ -103,7 +116,7 @@ def _ondata_abs(ctx):
                 if x.get("k") == "enum" and x["n"].endswith("ReadMode::Disabled"):
                     return A("disabled") if n["op"] == "==" else Not(A("disabled"))
         if k == "bin" and n["op"] in (">", ">=", "<", "<="):
-            l, rr = strip_casts(n["lhs"]), strip_casts(n["rhs"])
+            l, rr = res(n["lhs"]), res(n["rhs"])
 
             def is_max(x):
                 return x.get("k") == "member" and x["n"].endswith("::maxSyncReceiveBuffer")
@@ -115,6 +128,19 @@ def _ondata_abs(ctx):
                 has_buf = any(y.get("k") == "mcall" and last(y.get("callee", "")) == "size" and field_of(y.get("obj")) == SRB + "::data" for y in txt)
                 has_new = any(y.get("k") == "mcall" and last(y.get("callee", "")) == "size" and (y.get("obj") or {}).get("k") == "var" for y in txt)
                 return has_buf and has_new
+            def is_new(x):
+                return x.get("k") == "mcall" and last(x.get("callee", "")) == "size" and (x.get("obj") or {}).get("k") == "var"
+
+            def is_room(x):
+                # max - buffered: the subtraction form of the same bound (cannot wrap: buffered <= max is what this rule maintains)
+                if x.get("k") != "bin" or x["op"] != "-":
+                    return False
+                a, b = strip_casts(x["lhs"]), strip_casts(x["rhs"])
+                return is_max(a) and b.get("k") == "mcall" and last(b.get("callee", "")) == "size" and field_of(b.get("obj")) == SRB + "::data"
+            if is_new(l) and is_room(rr):
+                return Not(A("fits")) if n["op"] in (">",) else (A("fits") if n["op"] in ("<=",) else None)
+            if is_room(l) and is_new(rr):
+                return Not(A("fits")) if n["op"] in ("<",) else (A("fits") if n["op"] in (">=",) else None)
             if is_sum(l) and is_max(rr):
                 return Not(A("fits")) if n["op"] in (">", ">=") else A("fits")
             if is_max(l) and is_sum(rr):
@@ -434,6 +460,29 @@ def r8(ctx, r):
         raise AnalysisBroken("transport_impl.hpp: %d condition-variable waits found, expected 3" % n)
 
 
+def r9(ctx, r):
+    """While a session is in Sync mode the bytes that arrive go to its receiveBuffers entry; the data handler drops them when
+    there is no entry.  So an entry may disappear only once nothing more can arrive for it: every erase is behind `closed`."""
+    from ..finite import dominating_facts
+    fb = ctx.fb()
+    n = 0
+    for f in fb.in_file(FILE):
+        if not f.ok:
+            continue
+        for e in common.member_calls_on(f, IMPL + "::receiveBuffers", ("erase", "clear", "extract", "swap")):
+            n += 1
+            r.instance()
+            if f.kind in ("dtor",) or f.name.endswith("::~Impl"):
+                continue
+            facts = dominating_facts(f, e)
+            closed = any(t and any(x.get("k") == "member" and x["n"] == SRB + "::closed" for x in walk(c)) and strip_casts(c).get("k") in ("member", "cast") for (c, t) in facts)
+            r.expect(closed, f, e, "live receive buffer erased", "%s removes a receiveBuffers entry that is not known to be closed (known: %s): bytes that arrive for the session afterwards find no buffer and "
+                     "are dropped by the data handler while the mode is still Sync — the next receiveSync misses them" % (short(f.name), "; ".join(("" if t else "!") + show(c)[:40] for c, t in facts[-4:]) or "nothing"),
+                     okdesc="%s: erase only of a closed buffer" % short(f.name))
+    if n < 2:
+        raise AnalysisBroken("receiveBuffers erase sites: %d found, expected >= 2" % n)
+
+
 def run(ctx, ck):
     ck.run_rule("C03-R1", "sync-receive state is accessed only under Impl::syncMutex", "A1 lockset", lambda r: r1(ctx, r))
     ck.run_rule("C03-R2", "mode read, capacity test and append are one critical section", "A1 same-section", lambda r: r2(ctx, r))
@@ -442,4 +491,5 @@ def run(ctx, ck):
     ck.run_rule("C03-R5", "Sync→Async switch only on an empty buffer; ordered flush outside the lock under a FlushGuard", "A5 + A1", lambda r: r5(ctx, r))
     ck.run_rule("C03-R6", "every non-suppressed close leaves a closed buffer or tombstone and wakes the reader", "A2 must-pass", lambda r: r6(ctx, r))
     ck.run_rule("C03-R7", "the user data callback is reached only in Async mode and with no lock held", "A5 + A1", lambda r: r7(ctx, r))
+    ck.run_rule("C03-R9", "a receive-buffer entry is erased only once it is closed (no arrival can miss its buffer)", "A5 dominating facts over the closed set of erase sites", lambda r: r9(ctx, r))
     ck.run_rule("C03-R8", "condition-variable discipline for teardownCv / connect cv / receive cv", "A1", lambda r: r8(ctx, r))
